@@ -119,3 +119,12 @@ def pe_at(lfanew: int, payload_len: int = 48, file_align: int = 0x10):
     buf[raw:] = b"\xcc" * payload_len
     struct.pack_into("<I", buf, 0x3C, lfanew)
     return bytes(buf)
+
+
+def valid_pe_dir(nsec, dir_index, va, size, overlay=0):
+    """valid_pe(nsec) with data directory `dir_index` set to (va, size) and `overlay` bytes appended after the last section
+    (a signature / certificate table lives there and is addressed by FILE offset; every other directory by RVA)."""
+    img = bytearray(valid_pe(nsec))
+    o = 0x40 + 4 + 20 + 96 + 8 * dir_index
+    struct.pack_into("<II", img, o, va & 0xFFFFFFFF, size & 0xFFFFFFFF)
+    return bytes(img) + b"\x30" * overlay
